@@ -73,8 +73,16 @@ def evaluate_real(src, queries, rng, full_rate):
     non-default name; threshold passed by keyword, positionally, or through the alias / with an explicit root)."""
     sc.load(src, rng.choice([None, None, "student_main.py", "hw/q1.py"]))
     res = []
+    # history dimension: the instructor may look at OTHER code through the public student_code= argument
+    # (a reference solution, a snippet) between two checks of the submission; the default-root checks
+    # must still talk about the student's program (stale "current tree" state would show here).
+    distract = rng.random() < 0.35
+    if distract and rng.random() < 0.5:
+        sc.distract(rng, src)          # even before the submission was ever parsed
     for q in queries:
         kind = q[0]
+        if distract and rng.random() < 0.4:
+            sc.distract(rng, src)
         rec = {"find": sc.real_find(q), "checks": {}}
         if kind == "imp":
             rec["checks"][("ensure", None)] = sc.real_check(q, "ensure", None)
